@@ -158,6 +158,10 @@ impl<W: Copy, const N: usize> ReadWords<W, Queue> for ArrQueue<W, N> {
             Ok(Some(self.words[self.rpos - 1]))
         }
     }
+    #[inline(always)]
+    fn maybe_exhausted(&self) -> bool {
+        self.rpos >= self.len
+    }
 }
 impl<W: Copy, const N: usize> BoundedReadWords<W, Queue> for ArrQueue<W, N> {
     #[inline(always)]
